@@ -360,7 +360,8 @@ fn random(n: usize, nops: usize, seed: u64, out: &str) {
             next_id += 1;
             let h = match rig.active.last() {
                 Some(t) => heights[t] + 1,
-                None => 1,
+                // every block of the window was disconnected: the chain goes on from the block below the window
+                None => h0 - n as u32 + 1,
             };
             heights.insert(id, h);
             keys_of.insert(id, ks.clone());
